@@ -28,7 +28,7 @@ type c07Case struct {
 	Ops       [][]int `json:"ops"`
 	// [0,sid,complete] client message | [1,sid,ok] scripted read on sid's latest socket | [2,ms] sleep | [3] wait
 	// [4,n] next n dials fail | [5,n] next n hooks fail | [6,n] next n sends fail | [7,sid,n] next n writes on sid's socket fail
-	// [8] connection lost
+	// [8] connection lost | [9,n] the next n logger.Close calls take 10 ms
 }
 
 func TestVerifC07(t *testing.T) {
@@ -124,6 +124,10 @@ func c07Run(c c07Case, res map[string]any) {
 				cn.writeErr = op[2]
 				env.mu.Unlock()
 			}
+		case 9:
+			env.mu.Lock()
+			env.slowClose = op[1]
+			env.mu.Unlock()
 		case 8:
 			if !lost {
 				lost = true
@@ -165,7 +169,13 @@ func c07Run(c c07Case, res map[string]any) {
 		}
 	}
 	env.mu.Unlock()
-	c07Verdict(log, int64(c.TimeoutMs), fail)
+	slack := int64(0)
+	for _, op := range c.Ops {
+		if op[0] == 9 {
+			slack += 10 * int64(op[1])
+		}
+	}
+	c07Verdict(log, int64(c.TimeoutMs), slack, fail)
 	res["log"] = log
 	res["count"] = count
 	res["closes"] = closes
@@ -174,7 +184,8 @@ func c07Run(c c07Case, res map[string]any) {
 }
 
 // the property evaluated on the boundary log of the implementation alone
-func c07Verdict(log []vfEv, timeout int64, fail func(string)) {
+// slack: how long slow logger.Close calls can delay the sweeper within one sweep
+func c07Verdict(log []vfEv, timeout int64, slack int64, fail func(string)) {
 	type sk struct {
 		owner  uint32
 		dialT  int64
@@ -257,8 +268,8 @@ func c07Verdict(log []vfEv, timeout int64, fail func(string)) {
 			if amb || last < 0 {
 				continue
 			}
-			closedHere := s.closeT == T && nilClose[fmt.Sprintf("%d@%d", s.owner, T)]
-			if T-last > timeout && !(s.closeT >= 0 && s.closeT <= T) {
+			closedHere := s.closeT >= T && s.closeT <= T+slack && nilClose[fmt.Sprintf("%d@%d", s.owner, s.closeT)]
+			if T-last > timeout && !(s.closeT >= 0 && s.closeT <= T+slack) {
 				fail(fmt.Sprintf("socket %d (session %d) idle since %d ms was not closed by the sweep at %d ms (timeout %d)", k, s.owner, last, T, timeout))
 			}
 			if closedHere && T-last <= timeout {
